@@ -749,6 +749,45 @@ def _natural_density_relations(ctx, case, base, wla, keys):
                  s_res, want, 'natural_density.is_density')
 
 
+def _entry_points(ctx, f0, rho, wla, wl, E, base):
+    """nsf.neutron_sld, the package-level periodictable.neutron_sld / neutron_scattering and the (deprecated, still
+    documented) Formula.neutron_sld method against the base call of the family, each by wavelength= and by energy=."""
+    import numpy as np
+    import periodictable as pt
+    from periodictable import nsf
+
+    def sld3(what, res):
+        try:
+            a, b, c = res
+            got = np.array([[float(a)], [float(b)], [float(c)]])
+        except Exception:
+            ctx.violation('%s: result is not (re, im, inc): %r' % (what, res), relation='entry_point', symptom='structure')
+            raise _Fail()
+        want7 = base[:, :1]
+        full = np.vstack([got, want7[3:]])           # only the three SLD outputs are under test
+        _compare(ctx, what, full, want7, 'entry_point')
+
+    carrier = None
+    for kwname, kwval, shown in (('wavelength', wla, wl), ('energy', E, float(E))):
+        kw = {kwname: kwval}
+        tag = '%s=%r' % (kwname, shown)
+        sld3('nsf.neutron_sld(<compound>, density=%r, %s) vs base' % (rho, tag), nsf.neutron_sld(f0, density=rho, **kw))
+        sld3('periodictable.neutron_sld(<compound>, density=%r, %s) vs base' % (rho, tag),
+             pt.neutron_sld(f0, density=rho, **kw))
+        what = 'periodictable.neutron_scattering(<compound>, density=%r, %s) vs base' % (rho, tag)
+        got = _flat7(ctx, what, pt.neutron_scattering(f0, density=rho, **kw))
+        _compare(ctx, what, got, base, 'entry_point')
+        method = getattr(pt.formulas.Formula, 'neutron_sld', None)
+        if method is None:
+            ctx.count('entry_point.formula_method_absent')      # the deprecated method may be removed one day
+            continue
+        if carrier is None:
+            carrier = pt.formula(f0, density=rho)
+        sld3('formula(<compound>, density=%r).neutron_sld(%s) vs base' % (rho, tag), carrier.neutron_sld(**kw))
+        ctx.count('entry_point.formula_method')
+    ctx.count('entry_point.families')
+
+
 # --------------------------------------------------------------------------
 # checks
 # --------------------------------------------------------------------------
@@ -825,6 +864,9 @@ def _family_body(ctx, case):
     got = _flat7(ctx, 'energy=', _call(ctx, 'energy=', f0, density=rho, energy=E))
     _nonneg(ctx, 'energy=', got)
     _compare(ctx, 'energy=%r vs wavelength=%r' % (float(E), wl), got, base, 'energy')
+
+    # 4b. the other documented entry points give the same numbers, by wavelength= and by energy= ------------
+    _entry_points(ctx, f0, rho, wla, wl, E, base)
 
     # 5. vector call vs scalar calls; the vector is ONE buffer, edited in place and passed again ----------
     vec = case['vector']
@@ -1043,6 +1085,7 @@ def finish(ctx):
     for Z, A, _ in uni.edep:
         ctx.require('seen.edep.%d-%d' % (Z, A), 1, 'energy-dependent entry never used in a family')
     ctx.require('families', 3000 if not ctx.thorough() else 40000, 'fewer families than the floor of the tier')
+    ctx.require('entry_point.families', 1, 'the other documented entry points were never compared with the base call')
 
 
 def classify(rec):
